@@ -15,6 +15,7 @@ type windowGuard struct {
 	base   ssa.Value // index base X
 	slice  ssa.Value // s
 	k      int64     // guard proves X+k < len(s)
+	edge   int       // the successor edge of iff on which the guard holds
 	maxOff int64     // largest constant offset j of a read s[X+j] in the region the guard dominates (-1: none)
 	reads  int
 }
@@ -67,6 +68,11 @@ func windowGuards(fn *ssa.Function) []windowGuard {
 		if !ok {
 			continue
 		}
+		// the "remaining length" spelling: len(s) - X  (>|>=|<|<=)  c
+		if g, ok := remainingLengthGuard(fn, b, iff, bo); ok {
+			out = append(out, g)
+			continue
+		}
 		// normalise to  lhs < rhs  holding on edge `edge`
 		var lhs, rhs ssa.Value
 		edge := 0
@@ -96,29 +102,85 @@ func windowGuards(fn *ssa.Function) []windowGuard {
 		x, k := splitOffset(lhs)
 		// x + k < len(s) + rc + adj   =>  x + (k - rc - adj) < len(s)
 		k = k - rc - adj
-		g := windowGuard{fn: fn, iff: iff, base: x, slice: s, k: k, maxOff: -1 << 30}
-		for _, blk := range fn.Blocks {
-			if !edgeDominates(b, edge, blk) {
-				continue
-			}
-			for _, ins := range blk.Instrs {
-				ia, ok := ins.(*ssa.IndexAddr)
-				if !ok || ia.X != s {
-					continue
-				}
-				ix, j := splitOffset(ia.Index)
-				if ix != x {
-					continue
-				}
-				g.reads++
-				if j > g.maxOff {
-					g.maxOff = j
-				}
-			}
-		}
+		g := windowGuard{fn: fn, iff: iff, base: x, slice: s, k: k, edge: edge, maxOff: -1 << 30}
+		g.collectReads(b, edge)
 		out = append(out, g)
 	}
 	return out
+}
+
+func (g *windowGuard) collectReads(b *ssa.BasicBlock, edge int) {
+	for _, blk := range g.fn.Blocks {
+		if !edgeDominates(b, edge, blk) {
+			continue
+		}
+		for _, ins := range blk.Instrs {
+			ia, ok := ins.(*ssa.IndexAddr)
+			if !ok || ia.X != g.slice {
+				continue
+			}
+			ix, j := splitOffset(ia.Index)
+			if ix != g.base {
+				continue
+			}
+			g.reads++
+			if j > g.maxOff {
+				g.maxOff = j
+			}
+		}
+	}
+}
+
+// remainingLengthGuard recognises `len(s) - X  op  c` (either operand order) and turns it into X + k < len(s):
+//
+//	len-X >  c  true edge: k = c      len-X >= c  true edge: k = c-1
+//	len-X <  c false edge: k = c-1    len-X <= c false edge: k = c
+func remainingLengthGuard(fn *ssa.Function, b *ssa.BasicBlock, iff *ssa.If, bo *ssa.BinOp) (windowGuard, bool) {
+	op := bo.Op
+	rem, cst := bo.X, bo.Y
+	if _, isC := constInt(rem); isC {
+		rem, cst = bo.Y, bo.X
+		switch op {
+		case token.LSS:
+			op = token.GTR
+		case token.GTR:
+			op = token.LSS
+		case token.LEQ:
+			op = token.GEQ
+		case token.GEQ:
+			op = token.LEQ
+		}
+	}
+	c, isC := constInt(cst)
+	if !isC {
+		return windowGuard{}, false
+	}
+	sub, ok := stripConv(rem).(*ssa.BinOp)
+	if !ok || sub.Op != token.SUB {
+		return windowGuard{}, false
+	}
+	s := lenOf(sub.X)
+	if s == nil {
+		return windowGuard{}, false
+	}
+	x, off := splitOffset(sub.Y) // len - (X + off) op c
+	var k int64
+	edge := 0
+	switch op {
+	case token.GTR:
+		k = c
+	case token.GEQ:
+		k = c - 1
+	case token.LSS:
+		k, edge = c-1, 1
+	case token.LEQ:
+		k, edge = c, 1
+	default:
+		return windowGuard{}, false
+	}
+	g := windowGuard{fn: fn, iff: iff, base: x, slice: s, k: k + off, edge: edge, maxOff: -1 << 30}
+	g.collectReads(b, edge)
+	return g, true
 }
 
 // uncoveredReads: reads s[X+j] (j > 0 constant) dominated by at least one window guard on the same (X, s) but by none
@@ -150,11 +212,7 @@ func uncoveredReads(fn *ssa.Function) (covered int, out []uncoveredRead) {
 				if g.slice != ia.X || g.base != x {
 					continue
 				}
-				edge := 0
-				if bo := g.iff.Cond.(*ssa.BinOp); bo.Op == token.GEQ {
-					edge = 1
-				}
-				if !edgeDominates(g.iff.Block(), edge, blk) {
+				if !edgeDominates(g.iff.Block(), g.edge, blk) {
 					continue
 				}
 				if g.k > best {
